@@ -275,7 +275,7 @@ ident_json!(c00_ident_json_any_int, "any", |_d| { let n: i64 = kani::any(); (JV:
 
 with_validator_stubs! {
 /// CBOR `uint .size c` at visit_value level: accepted ⇔ v < 256^c, for every non-negative
-/// integer document and c ≤ 16 (larger c are outside the claim).
+/// integer document and c ≤ 15 (c ≥ 16 is asked about in c00_value_cbor_size_ge16).
 #[kani::proof]
 #[kani::unwind(20)]
 fn c00_value_cbor_size() {
@@ -283,17 +283,17 @@ fn c00_value_cbor_size() {
   let v = any_cbor_int();
   kani::assume(v >= 0);
   let c: usize = kani::any();
-  kani::assume(c <= 16);
+  kani::assume(c <= 15);
   let lit = Lit::UINT(c);
   let mut val = CBORValidator::new(&cddl, cbor_int(v), None);
   cddl::validator::cbor::verif_hooks_state::set_ctrl(&mut val, Some(Op::SIZE));
   let r = <CBORValidator as Visitor<'_, '_, CErr>>::visit_value(&mut val, &lit);
   let errs = cddl::validator::cbor::verif_hooks_occ::error_count(&val);
-  let fits = c >= 16 || (v >> (8 * c as u32)) == 0;
+  let fits = (v >> (8 * c as u32)) == 0;
   assert!(r.is_ok());
   assert!((errs == 0) == fits);
   kani::cover!(errs == 0 && c == 1);
-  kani::cover!(errs > 0 && c == 8);
+  kani::cover!(errs > 0 && c == 4);
   core::mem::forget(r);
   core::mem::forget(val);
   core::mem::forget(cddl);
@@ -301,14 +301,14 @@ fn c00_value_cbor_size() {
 }
 
 with_validator_stubs! {
-/// JSON `uint .size c` at visit_value level: accepted ⇔ v < 256^c (u64 documents, c ≤ 16).
+/// JSON `uint .size c` at visit_value level: accepted ⇔ v < 256^c (u64 documents, c ≤ 15).
 #[kani::proof]
 #[kani::unwind(20)]
 fn c00_value_json_size() {
   let cddl = CDDL { rules: vec![], comments: None };
   let v: u64 = kani::any();
   let c: usize = kani::any();
-  kani::assume(c <= 16);
+  kani::assume(c <= 15);
   let lit = Lit::UINT(c);
   let mut val = JSONValidator::new(&cddl, JV::Number(v.into()), None);
   cddl::validator::json::verif_hooks_state::set_ctrl(&mut val, Some(Op::SIZE));
@@ -325,25 +325,58 @@ fn c00_value_json_size() {
 }
 }
 
+macro_rules! value_json_u64 {
+  ($name:ident, $ctl:expr) => {
+    with_validator_stubs! {
+    /// JSON `visit_value`: non-negative integer document over the whole u64 range (serde_json
+    /// keeps integers above i64::MAX as u64) against a non-negative literal over the whole
+    /// usize range.
+    #[kani::proof]
+    #[kani::unwind(4)]
+    fn $name() {
+      let cddl = CDDL { rules: vec![], comments: None };
+      let v: u64 = kani::any();
+      let m: usize = kani::any();
+      let lit = Lit::UINT(m);
+      let mut val = JSONValidator::new(&cddl, JV::Number(v.into()), None);
+      cddl::validator::json::verif_hooks_state::set_ctrl(&mut val, op_of($ctl));
+      let r = <JSONValidator as Visitor<'_, '_, JErr>>::visit_value(&mut val, &lit);
+      let errs = cddl::validator::json::verif_hooks_occ::error_count(&val);
+      assert!(r.is_ok());
+      assert!((errs == 0) == cmp($ctl, v as i128, m as i128));
+      kani::cover!(errs == 0 && v > i64::MAX as u64);
+      kani::cover!(errs > 0 && m > isize::MAX as usize);
+      core::mem::forget(r);
+      core::mem::forget(val);
+      core::mem::forget(cddl);
+    }
+    }
+  };
+}
+value_json_u64!(c00_value_json_u64_eq, 0);
+value_json_u64!(c00_value_json_u64_ne, 1);
+value_json_u64!(c00_value_json_u64_lt, 2);
+value_json_u64!(c00_value_json_u64_gt, 4);
+
 with_validator_stubs! {
-/// CBOR `visit_value`: a float literal against a float document: accepted ⇔ equal as
-/// floats (NaN never equals; +0.0 == -0.0), documents and literals over all bit patterns.
+/// `uint .size c` with 16 ≤ c ≤ 20: every 64-bit unsigned integer fits in 16 or more bytes.
+/// Isolates a listed finding (256^16 overflows the 128-bit power and the control rejects
+/// everything).
 #[kani::proof]
-#[kani::unwind(4)]
-fn c00_value_cbor_float_eq() {
+#[kani::unwind(24)]
+fn c00_value_json_size_ge16() {
   let cddl = CDDL { rules: vec![], comments: None };
-  let a: u64 = kani::any();
-  let b: u64 = kani::any();
-  let (fa, fb) = (f64::from_bits(a), f64::from_bits(b));
-  let lit = Lit::FLOAT(fb);
-  let mut val = CBORValidator::new(&cddl, CV::Float(fa), None);
-  let r = <CBORValidator as Visitor<'_, '_, CErr>>::visit_value(&mut val, &lit);
-  let errs = cddl::validator::cbor::verif_hooks_occ::error_count(&val);
+  let v: u64 = kani::any();
+  let c: usize = kani::any();
+  kani::assume(c >= 16 && c <= 20);
+  let lit = Lit::UINT(c);
+  let mut val = JSONValidator::new(&cddl, JV::Number(v.into()), None);
+  cddl::validator::json::verif_hooks_state::set_ctrl(&mut val, Some(Op::SIZE));
+  let r = <JSONValidator as Visitor<'_, '_, JErr>>::visit_value(&mut val, &lit);
+  let errs = cddl::validator::json::verif_hooks_occ::error_count(&val);
+  kani::cover!(c == 17);
   assert!(r.is_ok());
-  kani::assume(!fa.is_nan() && !fb.is_nan()); // NaN literals cannot be written in CDDL
-  assert!((errs == 0) == (fa == fb));
-  kani::cover!(errs == 0 && a != b);
-  kani::cover!(errs > 0);
+  assert!(errs == 0);
   core::mem::forget(r);
   core::mem::forget(val);
   core::mem::forget(cddl);
